@@ -402,3 +402,22 @@ pub fn consumed_of<P: TInputProtocol<Buf = Bytes>>(p: &mut P, total: usize, unsa
 pub fn is_depth_limit(e: &pilota::thrift::ThriftException) -> bool {
     matches!(e, pilota::thrift::ThriftException::Protocol(pe) if pe.kind() == pilota::thrift::ProtocolExceptionKind::DepthLimit)
 }
+
+impl vcore::shrink::Shrink for Item {
+    fn candidates(&self) -> Vec<Item> {
+        use vcore::shrink::Shrink;
+        match self {
+            Item::Val(v) => v.candidates().into_iter().map(Item::Val).collect(),
+            Item::Msg { name, mtype, seq, body } => {
+                let mut out = vec![Item::Val(body.clone())];
+                for c in vcore::shrink::same_type_candidates(body) {
+                    out.push(Item::Msg { name: name.clone(), mtype: *mtype, seq: *seq, body: c });
+                }
+                if name != "m" || *seq != 0 {
+                    out.push(Item::Msg { name: "m".into(), mtype: *mtype, seq: 0, body: body.clone() });
+                }
+                out
+            }
+        }
+    }
+}
